@@ -459,15 +459,16 @@ def check_recount(ctx, facts):
                 continue
             where = (c, site)
             if c is not b:
-                # closure: which call receives it?
-                for call in b.calls():
-                    for a_ in call.node["args"]:
-                        d = b.def_rvalue(op_local(a_)) if op_local(a_) is not None else None
-                        if d and d[0] == "rv" and d[1]["k"] == "agg" and d[1].get("akind") == "closure" and strip_generics(d[1].get("name", "")) == strip_generics(c.name):
-                            cn = strip_generics(callee_name(call.node))
-                            recv = show(strip_refs(expr(b, call.node["args"][0])), 8)
-                            if re.search(r"Iterator>?::(position|rposition|find|find_map|rfind|any)$", cn) and ".chain" in recv:
-                                searched = True
+                # closure: which call receives it? (in the function or in the closure that creates it)
+                for hb_ in bodies:
+                    for call in hb_.calls():
+                        for a_ in call.node["args"]:
+                            d = hb_.def_rvalue(op_local(a_)) if op_local(a_) is not None else None
+                            if d and d[0] == "rv" and d[1]["k"] == "agg" and d[1].get("akind") == "closure" and strip_generics(d[1].get("name", "")) == strip_generics(c.name):
+                                cn = strip_generics(callee_name(call.node))
+                                recv = show(strip_refs(expr(hb_, call.node["args"][0])), 8)
+                                if re.search(r"Iterator>?::(position|rposition|find|find_map|rfind|any)$", cn) and ".chain" in recv:
+                                    searched = True
             else:
                 bbx = site.bb if site is not None else None
                 if bbx is not None:
